@@ -244,6 +244,8 @@ class Sched:
         self.trace_points = None  # optional list to record (actor, kind, desc)
         self.stuck_threads = 0
         self.switches = 0
+        # batch mode: many independent cases share one simulation; every new connection restarts the horizon
+        self.batch_horizon = None
         self._started_wall = None
 
     # -- time ---------------------------------------------------------------
